@@ -220,9 +220,16 @@ def env_outcomes(fams, env):
     e["VERIF_HASHSEED"] = str(env["hashseed"])
     e["VERIF_ASLR"] = "off"
     e["VERIF_PREALLOC"] = str(env["prealloc"])
-    p = subprocess.run([sys.executable, os.path.join(VERIF, "check.py"), ID, "--digest-jobs",
-                        json.dumps([{"kind": "env_child", "families": fams}])],
-                       env=e, capture_output=True, text=True, timeout=600, cwd=VERIF)
+    import tempfile
+
+    with tempfile.NamedTemporaryFile("w", suffix=".json", delete=False) as tf:
+        json.dump([{"kind": "env_child", "families": fams}], tf)
+    try:
+        p = subprocess.run([sys.executable, os.path.join(VERIF, "check.py"), ID, "--digest-jobs",
+                            "@" + tf.name],
+                           env=e, capture_output=True, text=True, timeout=600, cwd=VERIF)
+    finally:
+        os.unlink(tf.name)
     for line in p.stdout.splitlines():
         if line.startswith("DIGESTS "):
             return json.loads(line[len("DIGESTS "):])[0]
